@@ -252,5 +252,6 @@ func c12HostProfile() *profile {
 	p.maxDepth = 3
 	p.w["genlit"] = 0
 	p.elems = []string{"int"} // the injected constructs yield ints
+	p.keepParams = true
 	return p
 }
